@@ -25,6 +25,9 @@ pub enum TAir {
     AddRl { rows: usize },
     /// b = a * p0 + p1 with two periodic columns (periods 2 and 4); width 2.
     Per { rows: usize },
+    /// `Sub` that also declares its preprocessed column row-local
+    /// (`preprocessed_next_row_columns()` empty): the honest proof carries no `preprocessed_next`.
+    SubRl { rows: usize },
 }
 
 fn lcg(state: &mut u64) -> u64 {
@@ -44,6 +47,7 @@ impl TAir {
             TAir::Pv { rows } => format!("pv-r{rows}"),
             TAir::AddRl { rows } => format!("addrl-r{rows}"),
             TAir::Per { rows } => format!("per-r{rows}"),
+            TAir::SubRl { rows } => format!("subrl-r{rows}"),
         }
     }
 
@@ -55,6 +59,7 @@ impl TAir {
             | TAir::Sub { rows }
             | TAir::Pv { rows }
             | TAir::AddRl { rows }
+            | TAir::SubRl { rows }
             | TAir::Per { rows } => *rows,
         }
     }
@@ -113,7 +118,7 @@ impl TAir {
                 }
                 (RowMajorMatrix::new(v, 3), None, vec![])
             }
-            TAir::Sub { rows } => {
+            TAir::Sub { rows } | TAir::SubRl { rows } => {
                 let mut v = Vec::with_capacity(rows * 2);
                 let mut p = Vec::with_capacity(rows);
                 for row in 0..rows {
@@ -158,7 +163,7 @@ impl<V: Field + PrimeField64> BaseAir<V> for TAir {
             }
             TAir::Fib { .. } => 2,
             TAir::Add { .. } | TAir::AddRl { .. } => 3,
-            TAir::Sub { .. } => 2,
+            TAir::Sub { .. } | TAir::SubRl { .. } => 2,
             TAir::Pv { .. } => 2,
             TAir::Per { .. } => 2,
         }
@@ -181,8 +186,14 @@ impl<V: Field + PrimeField64> BaseAir<V> for TAir {
     fn preprocessed_width(&self) -> usize {
         match *self {
             TAir::Mul { reps, prep: true, .. } => reps * 2,
-            TAir::Sub { .. } => 1,
+            TAir::Sub { .. } | TAir::SubRl { .. } => 1,
             _ => 0,
+        }
+    }
+    fn preprocessed_next_row_columns(&self) -> Vec<usize> {
+        match *self {
+            TAir::SubRl { .. } => vec![],
+            _ => (0..<Self as BaseAir<V>>::preprocessed_width(self)).collect(),
         }
     }
     fn preprocessed_trace(&self) -> Option<RowMajorMatrix<V>> {
@@ -197,7 +208,7 @@ impl<V: Field + PrimeField64> BaseAir<V> for TAir {
     }
     fn main_next_row_columns(&self) -> Vec<usize> {
         match *self {
-            TAir::AddRl { .. } => vec![],
+            TAir::AddRl { .. } | TAir::SubRl { .. } => vec![],
             // the p3-air default: every column
             _ => (0..<Self as BaseAir<V>>::width(self)).collect(),
         }
@@ -264,7 +275,7 @@ where
                 let l = main.current_slice().to_vec();
                 builder.assert_zero(l[0] + l[1] - l[2]);
             }
-            TAir::Sub { .. } => {
+            TAir::Sub { .. } | TAir::SubRl { .. } => {
                 let main = builder.main();
                 let l = main.current_slice().to_vec();
                 let p = builder.preprocessed().clone();
